@@ -99,7 +99,7 @@ DIFFERENCE_VECTOR = Contract(
     setup=lambda eng, st: setup_self(eng, st) or st.env.__setitem__("knotvector", st.env["self"]),
     requires=[],
     spec={"closed": closed_diff},
-    ensures=["len(result) == n", "all(result[i] == closed(i) for i in range(n))"],
+    ensures=["len(result) == n", "all(result[i] == closed(i) for i in range(n))", "p > 0"],          # a normal return means the assertion passed (needed by its call-site contract)
     raises={"AssertionError": "p <= 0"},
     loops={0: dict(invariant=["0 <= it0 and it0 <= npts", "npts == n", "degree == p", "len(avals) == n",
                               "all(avals[k] == closed(k) for k in range(it0))",
